@@ -236,7 +236,20 @@ def run(ctx):
     for lf in LOCK_FNS:
         for f, b in cg.callers(lf):
             okc = f in ("db::Database::recover", "db::Database::create_new")
-            ctx.ob("R-C17.3", F.fns[f], "constructs-lock-guard", okc, "%s called from %s" % (lf, f), F.fns[f].loc(b), nontrivial=False)
+            why = "%s called from %s" % (lf, f)
+            if not okc and f in F.fns:
+                # a transient probe (is somebody creating this database right now?) whose guard never leaves the function:
+                # every alias of the guard ends in a plain drop, none is moved into an aggregate / another call / the return place
+                pf = F.fns[f]
+                t_ = pf.term(b)
+                g_ = A.Guard("L", pf, b, A.guard_aliases(pf, t_["dest"]["l"]), "lock")
+                kills = A.guard_kills(pf, g_)
+                # (the Err residual of `?` also flows into the return place: only locals that can hold a guard count)
+                escapes = [k for k in kills.values() if k != "drop"] or (0 in g_.aliases and "LockedFileGuard" in pf.local_ty(0))
+                if kills and not escapes:
+                    okc = True
+                    why += " — a probe: the guard is dropped inside the function and never stored"
+            ctx.ob("R-C17.3", F.fns[f], "constructs-lock-guard", okc, why, F.fns[f].loc(b), nontrivial=False)
     ul = cg.callers("std::fs::File::unlock")
     ctx.floor("R-C17.3", "File::unlock call sites", ul, 1)
     for f, b in ul:
@@ -424,6 +437,22 @@ def run(ctx):
         ctx.ob("R-C17.6", cor, "populated-folder-without-marker-is-not-initialised", ok,
                detail if ok else detail + ": a database folder whose version marker went missing is initialised as a NEW database on top of the existing files (new journal, new marker, the old keyspaces no longer listed)",
                cor.loc(cn[0]) if cn else "")
+        # ... and on that refusing edge a HELD lock is reported as a lock error first: a second opener can arrive while the first
+        # instance is still inside create_new (lock taken, marker not yet written)
+        if cn and hd:
+            inv = [b for b, blk in enumerate(cor.blocks) if not blk["cleanup"] for st_ in blk["s"]
+                   if st_["rv"]["k"] == "agg" and st_["rv"].get("adt") == "error::Error" and st_["rv"].get("variant") == "InvalidVersion"]
+            probes = R.call_blocks(cor, LOCK_FNS)
+            # (no lock file, nothing to probe: the existence test of the lock file is the one way around the probe)
+            exists = [b_ for b_, t_ in cor.calls() if A.cname(t_) == "std::path::Path::try_exists" and A.dominates(cor, hd[0], b_)]
+            okp = bool(inv) and bool(probes) and all(any(A.dominates(cor, pb_, i_) for pb_ in probes) or
+                                                     (exists and i_ not in A.reach(cor, cor.succs(hd[0]), avoid=probes + exists)) for i_ in inv)
+            if okp:
+                rfp = A.result_flow(cor, probes[0])
+                okp = bool(rfp.returned or rfp.err_blocks) and not rfp.swallowed
+            ctx.ob("R-C17.6", cor, "held-lock-reported-before-the-markerless-folder-is-refused", okp,
+                   "the lock is probed (and a held lock returned as the error) before InvalidVersion is answered" if okp else
+                   "a marker-less folder that holds database files is refused with InvalidVersion without looking at the lock: a second opener racing a creation (lock held, marker not yet written) does not get the lock error the property promises")
     hdf = ctx.fn("db::Database::holds_database_files", "R-C17.6")
     if hdf:
         cs = _string_consts(F, hdf)
@@ -477,6 +506,10 @@ def run(ctx):
         ok = all(need.values()) and len(laid) >= 3 and bool(true_ret)
         ctx.ob("R-C17.6", hdf, "recognises-lock-keyspaces-and-journals", ok,
                "the lock file, the keyspaces folder and *.jnl files count as database files" if ok else "not recognised as database files: %s" % ", ".join(k for k, v in need.items() if not v))
+
+    # ---- borrowed obligations (mechanisms owned by other properties that this property's verdict also rests on)
+    # after the last handle is dropped the journal is synced — sealed journals at seal time, the active one at drop
+    ctx.borrow("C09", ["R-C09.4", "R-C09.6"], "R-C17.7")
 
 
 def _strip_weak(ty):
